@@ -7,6 +7,14 @@ hook_commits = subprocess.run(['git', '-C', '/repo', 'log', '--format=%h %s', '-
 
 # id -> (category, text, level_note, technique, design_ref)
 CLAIMED = {
+ "C17": ("proof",
+  "Zero-annotation write-frame sweep over the real SSA: every function reachable from the Execute/Handle methods of the mechanisms (authenticators, authorizers, contextualizers, finalizers, error handlers; 260+ functions, recomputed on every run) is proved to store only into memory it allocated itself during the call, memory owned by the request context (ctxOwned), or fields guarded as init-only - never into the mechanism object or anything reachable from it. One obligation per store instruction (wframe#n), for all inputs; a new store in any of these functions generates a new obligation that must discharge (wildcard claims).",
+  "Stores done by callees outside the cone (std library, third-party) are covered only through the effect-free/spec list; sync.Map/atomic based memoisation at package level is not a field store and is not seen; the ownership predicate ctxOwned is trusted for what heimdall.Context hands out. Found and fixed: MetadataEndpoint.Get mutating the shared endpoint (data race, reproduced with -race).",
+  "contract-based deductive verification (govc VC generation over go/ssa, z3/cvc5)", "DESIGN.md §6 C17"),
+ "C19": ("proof",
+  "Zero-annotation panic-freedom sweep over the real SSA of the reload and decode entry points (key store / trust store loading, watcher callbacks, rule set parsing and decoding, rule factory, mapstructure decode hooks, provider update handlers; 170+ functions recomputed from the roots on every run): every index, slice, type assertion, nil-map write, division, explicit panic and dereference of a 'nil means nothing there' result of an external call is proved unreachable or guarded, for all inputs; preconditions (supported key sizes, non-empty chains) are proved at every call site; recursive calls need a decreases measure. 670+ obligations; ten genuine crashes found, replayed from file/rule-set bytes on the real code and fixed (7 fix commits).",
+  "Not claimed (listed as undecided in the evidence): type assertions on sync.Map values and after reflect.Kind checks, radix tree indexing (generic code, needs structural invariants), CompositeExtractStrategy on an empty strategy list (request path, recovered by the recovery middleware), termination of buildChain (bounded stand-in: certificate cycle test run on every check, labelled bounded). Generic nil dereferences are not checked (receivers and results of in-repo constructors are taken non-nil); loops are not checked for termination; panics inside third-party decoders are out of reach; the request path relies on the recovery middleware (not under contract).",
+  "contract-based deductive verification (govc VC generation over go/ssa, z3/cvc5)", "DESIGN.md §6 C19"),
  "C10": ("proof",
   "Contract proof over the real SSA: the four getCacheTTL functions are proved against postconditions taken from the property (0 <= ttl, configured 0 disables, ttl <= configured, ttl <= remaining lifetime minus leeway), and every call of cache.Cache.Set in heimdall is proved to pass ttl > 0 (call-site precondition of the interface contract). All inputs, unbounded.",
   "Trusted: specs of package time (ghost clock), cachecontrol/ttlcache/redis behaviour, effect-free list; integers mathematical (no overflow obligation on the seconds->Duration multiplication); expiry enforcement inside ttlcache/redis is assumed.",
